@@ -5,11 +5,28 @@ Driven over the PretextView-model case stream of pipeline_gen, an exhaustive tin
 perturbations of the maps (dropped / duplicated / overlapping / out-of-range pieces, junk bait lists) and an
 enumeration of short contigs (around the texel error length) shared by two or three pieces that leave a hole in them.  Errors are
 allowed (the statement is conditional on completion); silent loss, duplication or invention is not.
+
+Two levels are judged with the same oracle:
+  1. the dict of assemblies which BuildAssembly.assemblies_with_scaffolds_fused() returns (every case);
+  2. for cases carrying "cli_out" (an --output file name) the FILES which the real command line (pretext-to-asm, run in
+     process in a temporary directory that is removed) writes: every *.agp / *.tpf file found in the output directory
+     is read with the small readers below (no project code) and the fragments of ALL files together have to partition
+     the input contigs base by base - or the command has to end with a non-zero exit status.  Besides, the command
+     announces every file it writes on STDERR ("Created: '<path>'"); in a fresh output directory an assembly file
+     announced twice, or announced as "Overwrote", means that two assemblies were written to one path.
+     A rotating share of all the cases above goes through this level, plus two case families made for it (cli_cases):
+     single-haplotype maps whose unplaced scaffolds are named after 0-3 haplotype-like prefixes, and multi-haplotype
+     maps (with and without a Primary tag) holding scaffolds with and without a haplotype; in both, tagged pieces of
+     every kind, unplaced scaffolds present in / absent from the map, Target mode.
 """
 
 import math
+import pathlib
 import random
+import re
+import tempfile
 
+from . import cli_gen
 from . import pipeline_gen as pg
 from .common import Collector
 
@@ -68,10 +85,12 @@ def check(case, col, stats=None):
     if run.error is not None:
         if stats is not None:
             stats["errors"] = stats.get("errors", 0) + 1
-        return run
-    problems = partition_problems(case["input"], run.out)
-    if problems:
-        col.fail("remapping completed but the outputs do not partition the input: " + "; ".join(problems[:4]), case)
+    else:
+        problems = partition_problems(case["input"], run.out)
+        if problems:
+            col.fail("remapping completed but the outputs do not partition the input: " + "; ".join(problems[:4]), case)
+    if case.get("cli_out"):
+        check_cli(case, col, stats)
     return run
 
 
@@ -79,6 +98,117 @@ def replay(inp):
     col = Collector("replay")
     check(inp, col)
     return col.failures[0]["message"] if col.failures else None
+
+
+# --------------------------------------------------------------------------------------------------
+# the command line: the files pretext-to-asm writes
+# --------------------------------------------------------------------------------------------------
+
+CLI_OUT_NAMES = ("asm.1.agp", "asm.1.tpf", "x.agp", "idTest1.2.tpf", "out.tpf", "mVulVul1.3.agp")
+ANNOUNCED = re.compile(r"^\s*(Created|Overwrote): '(.*)'\s*$")
+
+
+def read_agp(text):
+    """scaffolds of a written AGP file as plain rows (hand-written reader, no project code)"""
+    scaffolds = {}
+    for line in text.splitlines():
+        if not line.strip() or line.startswith("#"):
+            continue
+        cols = line.split("\t")
+        rows = scaffolds.setdefault(cols[0], [])
+        if cols[4] in ("U", "N"):
+            rows.append(("G", int(cols[5]), cols[6]))
+        else:
+            rows.append(("F", cols[5], int(cols[6]), int(cols[7]), {"+": 1, "-": -1}.get(cols[8], 0), tuple(c for c in cols[9:] if c)))
+    return [{"name": n, "rows": r} for n, r in scaffolds.items()]
+
+
+def read_tpf(text):
+    """scaffolds of a written TPF file as plain rows (hand-written reader, no project code)"""
+    scaffolds = {}
+    last = None
+    pending = []
+    for line in text.splitlines():
+        if not line.strip() or line.startswith("#"):
+            continue
+        cols = line.split("\t")
+        if cols[0] == "GAP":
+            gap = ("G", int(cols[2]), {"TYPE-2": "scaffold", "TYPE-3": "contig"}.get(cols[1], cols[1]))
+            (scaffolds[last] if last is not None else pending).append(gap)
+            continue
+        name, span = cols[1].rsplit(":", 1)
+        start, end = span.split("-")
+        rows = scaffolds.setdefault(cols[2], [])
+        rows.extend(pending)
+        pending = []
+        rows.append(("F", name, int(start), int(end), {"PLUS": 1, "MINUS": -1}.get(cols[3], 0), ()))
+        last = cols[2]
+    return [{"name": n, "rows": r} for n, r in scaffolds.items()]
+
+
+def run_cli(case):
+    """
+    the case through the real command line: -a <input as AGP or TPF text> -p <PretextView AGP> -o <tmp>/out/<cli_out>
+    -c <prefix> into an empty output directory.
+    -> (exit code, error text, {file name: {"scaffolds": [...]}} for EVERY .agp / .tpf file in the output directory,
+        [(verb, file name)] as announced on STDERR)
+    """
+    out_name = case["cli_out"]
+    with tempfile.TemporaryDirectory() as d:
+        d = pathlib.Path(d)
+        if case.get("via") == "tpf" and pg.tpf_ok(case["input"]):
+            asm = d / "asm.tpf"
+            asm.write_text(pg.input_tpf_text(case["input"]))
+        else:
+            asm = d / "asm.agp"
+            asm.write_text(pg.input_agp_text(case["input"]))
+        (d / "pretext.agp").write_text(pg.pretext_agp_text(case["map"]))
+        out_dir = d / "out"
+        out_dir.mkdir()
+        args = ["-a", asm, "-p", d / "pretext.agp", "-o", out_dir / out_name, "-c", case.get("prefix", "SUPER_"), "--no-write-log", "-l", "ERROR"]
+        code, _, err, exc = cli_gen.run_pretext_to_asm(args)
+        files = {}
+        for p in sorted(out_dir.iterdir()):
+            ext = p.suffix.lower()
+            if p.is_file() and ext in (".agp", ".tpf"):
+                text = p.read_text()
+                files[p.name] = {"scaffolds": read_agp(text) if ext == ".agp" else read_tpf(text)}
+        announced = []
+        for line in (err or "").splitlines():
+            if m := ANNOUNCED.match(line):
+                announced.append((m.group(1), pathlib.Path(m.group(2)).name))
+    return code, ((exc or "") + " " + (err or "")).strip()[-300:], files, announced
+
+
+def cli_problems(case, files, announced):
+    """the statement over the files of a run that completed"""
+    problems = []
+    said = {}
+    for verb, name in announced:
+        if not name.lower().endswith((".agp", ".tpf")):
+            continue
+        said[name] = said.get(name, 0) + 1
+        if said[name] == 2 or (verb == "Overwrote" and said[name] == 1):
+            problems.append(f"two assemblies were written to one path: {name!r} was announced {verb!r} in an empty output directory; what was written there first is gone")
+    return problems + partition_problems(case["input"], files)
+
+
+def check_cli(case, col, stats=None):
+    code, err, files, announced = run_cli(case)
+    if stats is not None:
+        stats["cli"] = stats.get("cli", 0) + 1
+    if code != 0:
+        # "ends in an error": allowed
+        if stats is not None:
+            stats["cli_errors"] = stats.get("cli_errors", 0) + 1
+        return
+    problems = cli_problems(case, files, announced)
+    if problems:
+        col.fail(
+            f"pretext-to-asm -o {case['cli_out']} completed (exit 0) but the {len(files)} assembly file(s) it wrote "
+            f"({', '.join(files) or 'none'}) do not partition the input: " + "; ".join(problems[:4]),
+            case,
+        )
 
 
 TAG_POOL = (["Haplotig"], ["Contaminant"], ["FalseDuplicate"], ["Unloc"], ["X"], ["Hap1"], ["Hap2"], ["Target"], ["B1"], ["Singleton"])
